@@ -43,7 +43,7 @@ impl Scenario for AdaptorsScenario {
     }
     fn runs(&self, tier: &str) -> u64 {
         if tier == "quick" {
-            300_000
+            700_000
         } else {
             30_000_000
         }
